@@ -479,3 +479,59 @@ Proof. exact exg_centroid_step. Qed.
 Example C03_generated_step_ok_example : step_ok 8 1 2 exg_orf exg_odr ex_D 0.
 Proof. exact exg_step_ok. Qed.
 End RFGenFamily.
+
+(** *** 9. (family st3drv, seed C03-J) the SINUSOIDAL RF map kicks with the slope that belongs to the drift's angle, over
+    Gen_Scaling (Proofs/ScalingRFSlopeP.v).  The sinusoidal branch of RFKickMap::_calcKick has, in normalised units,
+    the small-amplitude slope  revolutionpart * V * cos(phi_s) * bl2phase / scale_E  with
+    bl2phase = scale_x("Meter")/c * f_RF * 2 pi; main() derives revolutionpart, V (= V_eff), f_RF and the two axis scales
+    separately ([gen_sinrf_revolutionpart], [gen_sinrf_V_RF], [gen_sinrf_f_RF], [gen_ps_Meter], [gen_ps_ElectronVolt]).
+    [gen_sinrf_slope] is that product without the factor cos(phi_s); it equals [gen_angle] = 2 pi/steps - the angle
+    the drift map gets - on every route of main(): alpha0 given or SynchrotronFrequency given (where the alpha0 option
+    must not enter the bunch length), StepsPerTs or StepsPerRevolution, bending radius given or derived.  Hence the
+    centroid's small-amplitude phase advance per step is the configured angle (times cos(phi_s) in the kick, the code's
+    own synchronous phase; sections 2-6 with t := slope). *)
+From Inovesa Require Model.MachineSpec Proofs.ScalingRFSlopeP.
+Module SinRFSlope.
+Import ScalingOps MachineSpec Gen_Scaling ScalingRFSlopeP.
+Local Open Scope F_scope.
+
+Theorem C03_sinusoidal_slope_is_angle :
+  forall (K : Fld) (O : Ops K) (L : leaf -> K) (B : bleaf -> bool),
+    let Veff := gen_sinrf_V_RF K O L B in
+    let fs := sync_freq K O (L C_two_pi) (L O_getRevolutionFrequency) (L O_getHarmonicNumber) (L O_getBeamEnergy)
+                        (L O_getAlpha0) Veff (L O_getSyncFreq) in
+    let steps := steps_per_period K O (L O_getRevolutionFrequency) fs (L O_getStepsPerTrev) (L O_getStepsPerTsync) in
+    L C_c <> 0 -> L C_two_pi <> 0 -> L O_getRevolutionFrequency <> 0 -> L O_getHarmonicNumber <> 0 ->
+    L O_getBeamEnergy <> 0 -> L O_getEnergySpread <> 0 -> Veff <> 0 -> fs <> 0 -> steps <> 0 ->
+    gen_sinrf_revolutionpart K O L B * gen_sinrf_V_RF K O L B
+      * (gen_ps_Meter K O L B / L C_c * gen_sinrf_f_RF K O L B * L C_two_pi) / gen_ps_ElectronVolt K O L B
+    = gen_angle K O L B.
+Proof. exact sinrf_slope_is_angle. Qed.
+Print Assumptions C03_sinusoidal_slope_is_angle.
+
+(** on the SynchrotronFrequency route the phase scale of the position axis is made of THE GIVEN f_s: the alpha0 option
+    does not occur in it *)
+Theorem C03_bunch_length_on_fs_route :
+  forall (K : Fld) (O : Ops K) (L : leaf -> K) (B : bleaf -> bool),
+    o_is0 O (L O_getSyncFreq) = false ->
+    L O_getHarmonicNumber <> 0 -> L O_getRevolutionFrequency <> 0 -> gen_sinrf_V_RF K O L B <> 0 ->
+    gen_ps_Meter K O L B =
+    L C_c * (L O_getEnergySpread * L O_getBeamEnergy) / L O_getHarmonicNumber
+      / (L O_getRevolutionFrequency * L O_getRevolutionFrequency) / gen_sinrf_V_RF K O L B * L O_getSyncFreq.
+Proof. exact meter_scale_on_fs_route. Qed.
+Print Assumptions C03_bunch_length_on_fs_route.
+
+(** non-vacuity over Qc (sqrt interpreted as the identity: QcOps): SynchrotronFrequency = 3 given, alpha0 = 7 (contradicting
+    it), StepsPerTs = 50, two_pi := 44/7, everything else 1 except RFVoltage = 2 (V_eff := 4 - 1 = 3 under the identity
+    "sqrt"): the slope is the angle 22/175 and every hypothesis of the theorem holds *)
+Example C03_sinusoidal_slope_example :
+  let L := fun l => match l with O_getStepsPerTsync => Q2Qc 50 | C_two_pi => Q2Qc (44 # 7) | O_getStepsPerTrev => 0%Qc
+                                | O_getSyncFreq => Q2Qc 3 | O_getAlpha0 => Q2Qc 7 | O_getRFVoltage => Q2Qc 2
+                                | O_getBendingRadius => 0%Qc | C_epsilon0 => Q2Qc (1 # 3) | C_c => Q2Qc (44 # 7) | _ => 1%Qc end in
+  let B := fun _ : bleaf => false in
+  this (gen_sinrf_slope QcF QcOps L B) = (22 # 175)%Q /\ this (gen_angle QcF QcOps L B) = (22 # 175)%Q /\
+  gen_sinrf_V_RF QcF QcOps L B <> 0%Qc /\
+  sync_freq QcF QcOps (L C_two_pi) (L O_getRevolutionFrequency) (L O_getHarmonicNumber) (L O_getBeamEnergy)
+            (L O_getAlpha0) (gen_sinrf_V_RF QcF QcOps L B) (L O_getSyncFreq) = Q2Qc 3.
+Proof. vm_compute. repeat split; try reflexivity. discriminate. Qed.
+End SinRFSlope.
